@@ -516,7 +516,7 @@ def intersection(*args, **kwargs):
             fibers = args
 
             def __iter__(self):
-                start_pos = [None] * (len(self.fibers) - 1)
+                start_pos = [0] * (len(self.fibers) - 1)
 
                 is_collecting = Metrics.isCollecting()
                 leader_traced = False
